@@ -127,6 +127,36 @@ def compare(sc, base_game, base_runs, game2, perm, ren, acc, exact=True, where="
                 break
         if findings:
             continue
+        # 3b. states NOT reachable from the initial state in the conditioned game (pruning on): their reported numbers are the
+        # fixed point of whatever the solver left of them; the amplification factor is taken from the observed lists of the base run
+        if prune and len(states) < n and b.out.snap is not None:
+            extra = [s for s in range(n) if s not in b.R]
+            try:
+                rg2 = sc.reward_game(O.exact_rows(b.out.snap))
+                A2 = rg2.max_time(extra)
+            except (ZeroDivisionError, ValueError, TypeError):
+                A2 = float("inf")
+            if A2 != float("inf"):
+                for s in extra:
+                    tol = 2 * J.reward_eps(A2, b.rewards, r1[2][s])
+                    if abs(r1[2][s] - r2[2][perm[s]]) > tol:
+                        findings.append(("C13/reward-differs-unreachable-state", r2[2][perm[s]], r1[2][s],
+                                         "state %d (not reachable from the initial state after conditioning): expected reward %r vs %r in the base "
+                                         "presentation (tolerance %.3g)" % (s, r2[2][perm[s]], r1[2][s], tol), cfg))
+                        break
+                    if sc.players[s] != PR:
+                        vals = sorted(r1[2][t] for _, t in b.out.snap[s])
+                        if any(abs(y - x) <= 2 * tol + 1e-6 for x, y in zip(vals, vals[1:])):
+                            continue
+                        names2 = [a for a, _ in game2["transition_list"][perm[s]]]
+                        want = _map_strat(r1[0][s], names2, ren)
+                        if r2[0][perm[s]] != want:
+                            findings.append(("C13/final-strategy-differs-unreachable-state", r2[0][perm[s]], want,
+                                             "state %d (not reachable from the initial state after conditioning): final strategy %r, expected %r"
+                                             % (s, r2[0][perm[s]], want), cfg))
+                            break
+            if findings:
+                continue
         for s in states:
             if sc.players[s] == PR:
                 continue
